@@ -22,6 +22,8 @@ from . import _taffytree as tt
 REC = tt.LAY_LEN + 3
 CNT = ['queries', 'cache_hits', 'measure_calls']
 CHAINS_A = 1092
+DEPTHS_B = 16
+WITNESS_LIMIT = 100000
 MODULE = 'Model.TaffyEngineRealRun'
 
 
@@ -150,9 +152,20 @@ def real_tree_k(rep, pid, binp, seed, n, family=0, maxnodes=12, timeout=900):
     return bad
 
 
+def typ_idx(typ, depth):
+    return CHAINS_A + DEPTHS_B * typ + depth - 1
+
+
 def quick_chain_spans():
-    """part A depth 1..5 (all 363 kind mixes) + every 9th of depth 6; part B: ~190 typical chains at varying depths (step 211 is coprime to 6)"""
-    return [(0, 363, 1), (363, 81, 9), (CHAINS_A, 190, 211)]
+    """part A depth 1..5 (all 363 kind mixes of default containers) + every 9th of depth 6; part B: 150 typical chains at depths 1..16
+    (step 691 is coprime to 16; chains over the harness's query limit are skipped) + the chains of the theorems of Props/C16.v:
+    default flex / grid / block chains of depth 1..16 and the growth family (typical chain 652) at depths 1, 4, 7, 10"""
+    return ([(0, 363, 1), (363, 81, 9), (CHAINS_A + 5, 150, 691)]
+            + [(typ_idx(t, 1), 16, 1) for t in (0, 273, 546)] + [(typ_idx(652, 1), 4, 3)])
+
+
+def thorough_chain_spans():
+    return [(0, CHAINS_A, 1), (CHAINS_A + 5, 1500, 67)] + [(typ_idx(t, 1), 16, 1) for t in (0, 273, 546)] + [(typ_idx(652, 1), 5, 3)]
 
 
 def real_chain_k(rep, pid, binp, spans=None, timeout=900):
@@ -186,6 +199,78 @@ def real_chain_k(rep, pid, binp, spans=None, timeout=900):
         'first_disagreements': ['chain %d (%s): %s' % (qs[cases.index(c)][0], qs[cases.index(c)][2], describe_diff(c, a, b)) for c, a, b in bad[:5]],
     }
     return bad
+
+
+def _coq_ints(src, name):
+    m = re.search(r'Definition %s : list Z :=\s*\[([^\]]*)\]' % name, src)
+    return [int(x) for x in m.group(1).replace('\n', ' ').split(';')] if m else None
+
+
+def chain_witnesses(rep, binp):
+    """Replays the computed chain theorems of Props/C16.v on the implementation.
+    C16_real_chain_growth_refuted: the chains `growth_case d` (Model/TaffyChainReal.v: built from the integer lists ci_*) ARE the chains
+    `vh taffytree chains` generates for typical chain 652 at the stated depths (the `C` lines are compared integer for integer), and the
+    implementation's (node count, leaf measure calls) are the stated ones.  C16_real_flex_chain_bound_partial: default flex / grid /
+    block chains of depth 1..16: same inputs, the implementation's counts within the stated bounds, the flex counts as stated."""
+    from ..pins import strip_comments
+    msrc = strip_comments(open(os.path.join(COQ, 'Model', 'TaffyChainReal.v')).read())
+    psrc = strip_comments(open(os.path.join(COQ, 'Props', 'C16.v')).read())
+    ci = {k: _coq_ints(msrc, 'ci_' + k) for k in ('flex', 'grid', 'block', 'grid_w200', 'block_m3', 'leaf')}
+    t = re.search(r'Theorem C16_real_chain_growth_refuted :(.*?)Proof\.', psrc, re.S)
+    fam = re.search(r'Definition growth_case \(depth : nat\) : list Z := chain_case \(typ_levels ci_(\w+) ci_(\w+) ci_(\w+) depth\)', msrc)
+    name = 'C16_real_chain_growth_refuted'
+    if not t or not fam or any(v is None for v in ci.values()):
+        rep.add_broken('witness', name, 'cannot find the witness in Props/C16.v / Model/TaffyChainReal.v')
+        return
+    depths = [int(x) for x in re.search(r'\[([\d; ]+)\]%nat', t.group(1)).group(1).split(';')]
+    table = [(int(a), int(b)) for a, b in re.findall(r'Some \((\d+), (\d+)\)', t.group(1))]
+    header = [1, 2, 0, 2, 0]
+
+    def case(levels_leaf_first):
+        c = list(header)
+        for k in reversed(levels_leaf_first):
+            c += ci[k]
+        return c + ci['leaf']
+
+    def impl(idx):
+        rc, out = vh(binp, ['taffytree', 'chains', idx, 1, 1, WITNESS_LIMIT], timeout=120)
+        c, r = parse_cr(out)
+        return (c[0], r[0]) if c else (None, None)
+
+    got, same_input = [], True
+    for d in depths:
+        c, r = impl(typ_idx(652, d))
+        same_input = same_input and c == case([fam.group(1 + j % 3) for j in range(d)])
+        got.append((len(r) // REC, r[-1]) if r else None)
+    rep.cov['chain_growth_witness'] = {'depths': depths, 'stated_nodes_and_leaf_measure_calls': table, 'implementation': got,
+                                       'inputs_are_the_generated_chains': same_input}
+    if len(table) != len(depths) or not same_input:
+        rep.add_broken('witness', name, 'vh taffytree chains no longer generates the chains of the theorem (typical chain 652)')
+    elif got != table:
+        rep.add_broken('witness', name, 'the implementation no longer behaves as the model witness says: stated %s observed %s' % (table, got))
+    else:
+        rep.known.append('chain-measure-growth: model witness C16_real_chain_growth_refuted replayed (typical chain 652: grid{width:200} > flex > '
+                         'block{margin:3} repeating over a text leaf: leaf measured %s times at depths %s; %d > 64 x %d nodes)' % (
+                             [b for _, b in table], depths, table[-1][1], table[-1][0]))
+    # the positive counterpart
+    bounds = {'flex': (6, 20, 0), 'grid': (6, 26, 273), 'block': (1, 3, 546)}
+    stated_flex = [int(x) for x in re.findall(r'Some (\d+)', re.search(r'flex_case d\)\) \(seq 1 6\) =(.*?)Proof', psrc, re.S).group(1))]
+    ok, obs = True, {}
+    for k, (mb, qr, typ) in bounds.items():
+        rc, out = vh(binp, ['taffytree', 'chains', typ_idx(typ, 1), 16, 1, WITNESS_LIMIT], timeout=120)
+        cs, rs = parse_cr(out)
+        qs = [int(l.split()[2]) for l in out.split('\n') if l.startswith('Q ')]
+        if len(cs) != 16 or len(qs) != 16:
+            ok = False
+            continue
+        obs[k] = [r[-1] for r in rs]
+        for d, (c, r, q) in enumerate(zip(cs, rs, qs), 1):
+            ok = ok and c == case([k] * d) and r[-1] <= mb and q <= qr * d
+    ok = ok and obs.get('flex', [])[:6] == stated_flex
+    rep.cov['default_chain_bound_witness'] = {'leaf_measure_calls_depth_1_to_16': obs, 'stated_flex_counts_depth_1_to_6': stated_flex, 'as_stated': ok}
+    if not ok:
+        rep.add_broken('witness', 'C16_real_flex_chain_bound_partial', 'the implementation\'s default flex / grid / block chains are not the '
+                       'stated inputs or exceed the stated bounds: %s' % obs)
 
 
 if __name__ == '__main__':
